@@ -2,7 +2,7 @@
    Model: Model/Par2.v over Model/FS.v.  "Exact original" is stated through the archive's own
    hashes: the data written has the recorded length, MD5 and first-16-KiB MD5 (equal content under
    the usual local collision-freeness of MD5, which is a premise, never an axiom, here). *)
-From Gopar Require Import Model.Base Model.CRC Model.GoPath Model.FS Model.Par2 Proofs.Par2Facts.
+From Gopar Require Import Model.Base Model.CRC Model.GoPath Model.FS Model.Par2 Proofs.Par2Facts Proofs.Par2Faults Proofs.Par2CreatePaths.
 Open Scope N_scope.
 
 (* Verify (and the whole loading phase of Repair) leaves the file map unchanged - for EVERY archive
@@ -36,3 +36,28 @@ Theorem C02_repair_writes : forall md5 ix dbl fs r rp st',
                        N.of_nat (length (snd w)) = di_len info) ws.
 Proof. exact repair_writes. Qed.
 Print Assumptions C02_repair_writes.
+
+(* CREATE touches nothing but its own outputs: for EVERY initial file system, current directory, argument
+   spelling and fault schedule, every write event of Create targets <parPath minus extension>.par2 or
+   <parPath minus extension>.volII+CC.par2, and every other path - the inputs included - keeps its content;
+   it reads exactly the listed inputs (resolved) and lists no directory *)
+Theorem C02_create_write_targets : forall md5 cwd parPath files p fs sched pth d ok,
+  In (EvWrite pth d ok) (io_trace (snd (par2_create md5 cwd parPath files p (io_init fs sched)))) ->
+  is_output parPath pth.
+Proof. exact create_write_targets. Qed.
+Print Assumptions C02_create_write_targets.
+
+Theorem C02_create_inputs_untouched : forall md5 cwd parPath files p fs sched q,
+  ~ is_output parPath q ->
+  fs_lookup (io_fs (snd (par2_create md5 cwd parPath files p (io_init fs sched)))) q = fs_lookup fs q.
+Proof. exact create_inputs_untouched. Qed.
+Print Assumptions C02_create_inputs_untouched.
+
+Theorem C02_create_read_targets : forall md5 cwd parPath files p fs sched,
+  let tr := io_trace (snd (par2_create md5 cwd parPath files p (io_init fs sched))) in
+  let basedir := dir (abs_path cwd parPath) in
+  (forall pth ok, In (EvRead pth ok) tr ->
+     exists f, In f files /\ pth = join2 basedir (rel_path basedir (abs_path cwd f))) /\
+  (forall pre suf ok, ~ In (EvList pre suf ok) tr).
+Proof. exact create_read_targets. Qed.
+Print Assumptions C02_create_read_targets.
